@@ -16,17 +16,15 @@ pub fn judge_layering(
     }
     let (left, depth) = strip_depths(succ);
     for y in 0..n {
-        if unvisited[y] > 1 {
-            return Err(("flags", format!("flag of {} is {}", y, unvisited[y])));
-        }
-        if (unvisited[y] == 1) != left[y] {
+        // any non-zero flag reads as "unvisited" (the statement does not fix its value)
+        if (unvisited[y] != 0) != left[y] {
             return Err((
                 "unvisited-iff-cyclic",
                 format!(
                     "operation {} is {} a cycle or downstream of one but is flagged {}",
                     y,
                     if left[y] { "on" } else { "not on" },
-                    if unvisited[y] == 1 { "unvisited" } else { "visited" }
+                    if unvisited[y] != 0 { "unvisited" } else { "visited" }
                 ),
             ));
         }
